@@ -601,6 +601,18 @@ type Cache struct {
 
 func NewCache(log *EffectLog) *Cache { return &Cache{M: map[string][]byte{}, Log: log} }
 
+// Clone returns an independent cache holding a copy of the current content (the
+// disk image as of now, for a replica that restarts from it).
+func (c *Cache) Clone() *Cache {
+	c.mu.Lock()
+	defer c.mu.Unlock()
+	n := &Cache{M: map[string][]byte{}, Log: c.Log}
+	for k, v := range c.M {
+		n.M[k] = v
+	}
+	return n
+}
+
 func (c *Cache) Put(ctx context.Context, key datastore.Key, value []byte) error {
 	label := "cache-put:" + key.String()
 	if c.Label != nil {
